@@ -3,6 +3,7 @@ module verif/htlab
 go 1.21
 
 require (
+	github.com/BurntSushi/toml v0.3.0
 	github.com/honeytrap/honeytrap v0.0.0
 	github.com/mimoo/disco v0.0.0-20180114190844-15dd4b8476c9
 	golang.org/x/crypto v0.0.0-20200128174031-69ecbb4d6d5d
@@ -10,7 +11,6 @@ require (
 
 require (
 	github.com/AndreasBriese/bbloom v0.0.0-20170702084017-28f7e881ca57 // indirect
-	github.com/BurntSushi/toml v0.3.0 // indirect
 	github.com/Logicalis/asn1 v0.0.0-20160307192209-c9c836c1a3cd // indirect
 	github.com/Shopify/sarama v1.16.0 // indirect
 	github.com/boltdb/bolt v1.3.1 // indirect
